@@ -640,7 +640,7 @@ void execSweep(const Plan& p, Ctx& c, long startIndex)
       const Damage& d = L[k];
       if (d.kind == 12) continue;
       std::string img = applyDamage(image, ev, d, "");
-      c.line("B " + std::to_string(k) + " load." + fm->name + " dmg=" + DMG[d.kind] + "," + std::to_string(d.a) + "," + std::to_string(d.b) + " mode=1");
+      c.begin((long)k, "load." + fm->name + " dmg=" + DMG[d.kind] + "," + std::to_string(d.a) + "," + std::to_string(d.b) + " mode=1");
       c.count(std::string("fault.") + DMG[d.kind]);
       std::string path = scratchDir() + "/fmtimg.dat";
       writeFileRaw(path, img);
@@ -732,7 +732,7 @@ void execSweep(const Plan& p, Ctx& c, long startIndex)
         }
         else body = img.substr(m.tagLen);
       }
-      c.line("B " + std::to_string(k) + " load." + m.ad->name + " dmg=" + DMG[d.kind] + "," + std::to_string(d.a) + "," + std::to_string(d.b) + " mode=" + std::to_string(mode));
+      c.begin((long)k, "load." + m.ad->name + " dmg=" + DMG[d.kind] + "," + std::to_string(d.a) + "," + std::to_string(d.b) + " mode=" + std::to_string(mode));
       c.count(std::string("fault.") + DMG[d.kind]);
       long badAt = -1;
       if (mode == 0 && d.kind == 11 && (d.a % 3) == 0) { badAt = d.a % (long)(body.size() + 1); c.count("fault.reader-eio"); }
